@@ -428,8 +428,16 @@ public:
    }
    size_t Pending(int role) const { Session * s = _s[role](); return (s && s->GetGateway()()) ? s->GetGateway()()->GetOutgoingMessageQueue().GetNumItems() : 0; }
 
-   // one non-blocking pass of the real event loop (clears lame ducks, runs due pulses; there is no I/O to do)
-   void Step() { (void) server.ServerProcessLoop(0); }
+   // One non-blocking pass of the real event loop (clears lame ducks, runs due pulses; there is no I/O to do).  Sessions that the
+   // server detached in that pass (EndSession / PR_COMMAND_KICK from another session) are released; returns their roles as a bit mask.
+   // Call it after any command that can end a session, before the next Dump()/Inject().
+   uint32_t Step()
+   {
+      (void) server.ServerProcessLoop(0);
+      uint32_t gone = 0;
+      for (int r = 0; r < MAX_ROLES; r++) if (_s[r]() && !_s[r]()->IsAttachedToServer()) { gone |= (1u << r); _s[r].Reset(); }
+      return gone;
+   }
 
    // Session departure: EndSession() + one event-loop pass.  Returns what was still queued for the departing client.
    std::vector<MessageRef> Depart(int role)
@@ -437,7 +445,7 @@ public:
       std::vector<MessageRef> last = Drain(role);
       Session * s = _s[role](); if (s == NULL) return last;
       s->EndSession();
-      Step();
+      (void) Step();
       _s[role].Reset();
       return last;
    }
